@@ -329,12 +329,31 @@ func genAccept(r *gen.R, n int, rejecting bool) [][]bool {
 	return a
 }
 
-func runC05(c *ctxT) {
-	n := c.scale(260, 6000)
+func runC05(c *ctxT) { runC05n(c, c.scale(260, 6000)) }
+
+func runC05n(c *ctxT, n int) {
 	for i := 0; i < n; i++ {
 		r := c.rng.Fork()
 		nc := 2 + r.Intn(2)
-		w := newChWorld(nc, genAccept(r, nc, true))
+		if i%4 == 1 {
+			nc = 3
+		}
+		w := newChWorld(nc, genAccept(r, nc, i%4 != 1))
+		if i%4 == 1 {
+			// directed: a channel bound to one key has its rekey handshake answered by ANOTHER key it would
+			// accept on a fresh channel; then that peer sends data
+			a := r.Intn(3)
+			b, o := (a+1)%3, (a+2)%3
+			w.rekey(a)
+			w.reliableRounds(a, b, 2)
+			w.send(a)
+			w.rekey(a)
+			w.reliableRounds(a, o, 2)
+			w.send(o)
+			w.pump(a, o)
+			w.send(b)
+			w.pump(a, b)
+		}
 		steps := 10 + r.Intn(50)
 		for s := 0; s < steps; s++ {
 			w.randomAct(r, i%3 == 0, i%5 == 0)
@@ -392,6 +411,7 @@ func (w *chWorld) pendingSend(a, b, rounds int) (int, bool) {
 }
 
 func runC07(c *ctxT) {
+	timerCases(c, c.rng.Fork())
 	n := c.scale(260, 6000)
 	for i := 0; i < n; i++ {
 		r := c.rng.Fork()
